@@ -131,6 +131,10 @@ def model_side(case, src):
     line.append(rats(wq))
     line.append(str(nb))
     for f, x, e in zip(src['flags'], src['flux'], src['err']):
+        if f in (0, 9) and not (math.isfinite(x) and math.isfinite(e)):
+            # inf / NaN have no rational form; an ignored band's values do not reach the model's fit at all
+            # (theorem C03_ignored), so zeros are sent in their place
+            x, e = 0., 0.
         line += [str(f), rat(x), rat(e)]
     line.append(str(len(case['models'])))
     for mf in case['models']:
